@@ -1179,7 +1179,7 @@ fn run_globals(jobs: &[(Ty, String)], out: &mut Vec<(Obs, Option<Seen>)>, units:
         other if jobs.len() == 1 => out.push((
             match other {
                 Err(p) => Obs::Panic(p),
-                Ok(Tc::TypeErr(TyperError::ExpressionIsNotConstantExpression(_))) => Obs::NotConst,
+                Ok(Tc::TypeErr(TyperError::ExpressionIsNotConstantExpression(..))) => Obs::NotConst,
                 Ok(Tc::TypeErr(e)) => Obs::Rejected(err_head(&e)),
                 Ok(Tc::Syntax(s)) => Obs::Rejected(format!("syntax: {}", one_line(&s, 80))),
                 Ok(Tc::Ok(_)) => unreachable!(),
@@ -1478,7 +1478,7 @@ fn obs_enum(expr: &str) -> Obs {
     match tc(&src) {
         Err(p) => Obs::Panic(p),
         Ok(Tc::Syntax(s)) => Obs::Rejected(format!("syntax: {}", one_line(&s, 80))),
-        Ok(Tc::TypeErr(TyperError::ExpressionIsNotConstantExpression(_))) => Obs::NotConst,
+        Ok(Tc::TypeErr(TyperError::ExpressionIsNotConstantExpression(..))) => Obs::NotConst,
         Ok(Tc::TypeErr(TyperError::EnumTypeCanNotBeDeduced(_, min, max))) => Obs::Int(if min < 0 { min } else { max }),
         Ok(Tc::TypeErr(e)) => Obs::Rejected(err_head(&e)),
         Ok(Tc::Ok(m)) => {
@@ -1519,10 +1519,10 @@ fn obs_position(pos: &str, expr: &str, tyname: Option<&str>, rlit: &str) -> (Obs
         Ok(Tc::TypeErr(e)) => {
             return (
                 match (pos, &e) {
-                    (_, TyperError::ExpressionIsNotConstantExpression(_)) => Obs::NotConst,
+                    (_, TyperError::ExpressionIsNotConstantExpression(..)) => Obs::NotConst,
                     ("array", TyperError::ArrayDimensionsMustBeConstantExpression(..)) => Obs::NotConst,
-                    ("array", TyperError::ArrayDimensionsMustBeNonZero(_)) => Obs::Int(0),
-                    ("attr", TyperError::PipelinePropertyRequiresIntegerArgument(_)) => Obs::NotConst,
+                    ("array", TyperError::ArrayDimensionsMustBeNonZero(..)) => Obs::Int(0),
+                    ("attr", TyperError::PipelinePropertyRequiresIntegerArgument(..)) => Obs::NotConst,
                     ("assert_eval", TyperError::AssertEvalFailed(_, _reference, generated)) => Obs::Value(generated.clone()),
                     _ => Obs::Rejected(err_head(&e)),
                 },
